@@ -39,7 +39,7 @@ func G(a int) int { return a }
 type wfCorruption struct {
 	name string
 	mode ir.BuilderMode
-	rule string // expected rule (prefix)
+	rule string                       // expected rule (prefix)
 	do   func(f, g *ir.Function) bool // false: the shape needed was not found
 }
 
